@@ -24,6 +24,7 @@ package usermanager
 // AuthenticateUser (C07/C15): nil error only for an existing user with positive credit in both
 // directions whose expiry has not passed.
 //@ func (*localManager).AuthenticateUser
+//@   repinv open: manager != nil && manager.db != nil && dbWF()
 //@   requires manager != nil && manager.db != nil && dbWF()
 //@   ensures exists: ret2 == nil ==> dbHas(bkt(UID))
 //@   ensures credit: ret2 == nil ==> dbI64(bkt(UID), "UpCredit") > 0 && dbI64(bkt(UID), "DownCredit") > 0
@@ -34,6 +35,8 @@ package usermanager
 
 // AuthoriseNewSession (C15): nil error only below the session cap, with credit, not expired.
 //@ func (*localManager).AuthoriseNewSession
+//@   repinv open: manager != nil && manager.db != nil && dbWF()
+//@   repinv capAbstraction: uf("sessionsCap", strOfBytes(UID)) == dbU32(bkt(UID), "SessionsCap")
 //@   requires manager != nil && manager.db != nil && dbWF() && len(UID) == 16
 //@   ensures exists: ret0 == nil ==> dbHas(bkt(UID))
 //@   ensures belowCap: ret0 == nil ==> ainfo.NumExistingSessions < dbU32(bkt(UID), "SessionsCap")
@@ -42,6 +45,7 @@ package usermanager
 
 // GetUserInfo (C18): what is returned is what is stored.
 //@ func (*localManager).GetUserInfo
+//@   repinv open: manager != nil && manager.db != nil && dbWF()
 //@   requires manager != nil && manager.db != nil && dbWF()
 //@   ensures found: err == nil <==> dbHas(bkt(UID))
 //@   ensures fields: err == nil ==> uinfo.UpRate != nil && int(*uinfo.UpRate) == dbI64(bkt(UID), "UpRate") && uinfo.DownRate != nil && int(*uinfo.DownRate) == dbI64(bkt(UID), "DownRate") && uinfo.UpCredit != nil && int(*uinfo.UpCredit) == dbI64(bkt(UID), "UpCredit") && uinfo.DownCredit != nil && int(*uinfo.DownCredit) == dbI64(bkt(UID), "DownCredit") && uinfo.ExpiryTime != nil && int(*uinfo.ExpiryTime) == dbI64(bkt(UID), "ExpiryTime")
@@ -52,12 +56,14 @@ package usermanager
 // (no frame is claimed for memory: the result slice is grown by append inside the ForEach callback,
 // which is cut without an invariant; callers see "modifies *" apart from the database)
 //@ func (*localManager).ListAllUsers
+//@   repinv open: manager != nil && manager.db != nil && dbWF()
 //@   requires manager != nil && manager.db != nil && dbWF()
 //@   ensures readOnly: dbSame()
 //@   flag noframe
 
 // DeleteUser (C18): the user is gone, nobody else is touched.
 //@ func (*localManager).DeleteUser
+//@   repinv open: manager != nil && manager.db != nil && dbWF()
 //@   requires manager != nil && manager.db != nil
 //@   ensures gone: err == nil ==> !dbHas(bkt(UID))
 //@   ensures nobodyElse: forall b string :: b != bkt(UID) ==> dbRecSame(b)
@@ -82,6 +88,7 @@ package usermanager
 //@ ghost func stored32(b string, k string, v int32) bool { return dbKey(b, k) && dbLen(b, k) == 4 && dbU32(b, k) == int(uint32(v)) }
 //@ ghost func hadField(b string, k string) bool { return dbHas(b) && dbKey(b, k) }
 //@ func (*localManager).WriteUserInfo
+//@   repinv open: manager != nil && manager.db != nil && dbWF()
 //@   requires manager != nil && manager.db != nil
 //@   ensures atomic: err != nil ==> dbSame()
 //@   ensures created: err == nil ==> dbHas(bkt(u.UID))
@@ -119,6 +126,7 @@ package usermanager
 //@   loop 0 step twoWrites: bucket != nil ==> ghostget("dbputs", 0) == old(ghostget("dbputs", 0)) + 2
 //@   loop 0 step nobodyElse: forall b string :: b != bkt(status.UID) ==> dbRecSame(b)
 //@ func (*localManager).UploadStatus
+//@   repinv open: manager != nil && manager.db != nil && dbWF()
 //@   requires manager != nil && manager.db != nil && dbWF()
 //@   ensures keepsRecordsReadable: dbWF()
 //@   ensures noUserCreatedOrDeleted: forall b string :: dbHas(b) == old(dbHas(b))
@@ -164,3 +172,22 @@ package usermanager
 //@   requires ar != nil && ar.manager != nil && r != nil && w != nil
 //@   ensures readOnly: dbSame()
 //@   flag noframe
+
+// ---------------------------------------------------------------------------------------------
+// Voidmanager (C07: the server run without a database): it refuses everything, so that nobody but the
+// configured bypass / admin UIDs gets through, and it touches nothing.
+// ---------------------------------------------------------------------------------------------
+//@ func (*Voidmanager).AuthenticateUser
+//@   ensures refusesEveryone: ret2 != nil && ret0 == 0 && ret1 == 0
+//@ func (*Voidmanager).AuthoriseNewSession
+//@   ensures refusesEverySession: ret0 != nil
+//@ func (*Voidmanager).UploadStatus
+//@   ensures noVerdicts: ret1 != nil && len(ret0) == 0
+//@ func (*Voidmanager).ListAllUsers
+//@   ensures nothingListed: ret1 != nil && len(ret0) == 0
+//@ func (*Voidmanager).GetUserInfo
+//@   ensures notFound: ret1 != nil
+//@ func (*Voidmanager).WriteUserInfo
+//@   ensures refused: ret0 != nil
+//@ func (*Voidmanager).DeleteUser
+//@   ensures refused: ret0 != nil
